@@ -179,31 +179,41 @@ Definition is_pending_on (c : nat) (b : sub) : bool :=
   Nat.eqb (s_conn b) c && match s_state b with SPending => true | _ => false end.
 
 (* MethodSink::send with the error ignored: enqueue when the connection is open, else nothing *)
-Definition push (s : st) (c : nat) (f : frame) : st :=
-  if conn_open s c then upd_conn s c (c_enq f) else s.
-(* the owner of the permit (pending sink, or the last clone) goes away *)
-Definition release (s : st) (h : nat) (b : sub) : st :=
-  if s_has_permit b then upd_conn (upd_sub s h (sb_permit false)) (s_conn b) c_give_permit else s.
+Definition c_push (f : frame) (cn : conn) : conn := if c_open cn then c_enq f cn else cn.
+Definition c_push_opt (fo : option frame) (cn : conn) : conn := match fo with Some f => c_push f cn | None => cn end.
+Definition push (s : st) (c : nat) (f : frame) : st := upd_conn s c (c_push f).
+(* the owner of the permit (pending sink, or the last clone) goes away: the subscription loses it, the
+   connection's semaphore gets it back *)
+Definition rel_sub (r : bool) (x : sub) : sub := if r then sb_permit false x else x.
+Definition rel_conn (r : bool) (cn : conn) : conn := if r then c_give_permit cn else cn.
+
+(* Every handler-side step touches one subscription record, its own connection, and possibly the table. *)
+Definition apply (s : st) (h : nat) (b : sub) (fs : sub -> sub) (fc : conn -> conn) (t : list (nat * N)) : st :=
+  mkSt (upd (s_conn b) fc (conns s)) t (upd h fs (subs s)) (stopped s) (id_base s) (notif_meth s).
+
+Definition is_nil {A} (l : list A) : bool := match l with [] => true | _ => false end.
 
 (* ---------- the drop of one clone ---------- *)
 (* repaired (fixes/C06.patch): only the last clone's drop runs the shared guard, which removes the entry unless the
    subscription was unsubscribed already; the Arc<permit> goes with the last clone too *)
 Definition drop_sink (s : st) (h : nat) (b : sub) (k : N) : st :=
   let rest := removeN k (s_sinks b) in
-  match rest with
-  | [] =>
-      let s1 := upd_sub s h (fun b => sb_unsub true (sb_sinks [] b)) in
-      let s2 := if s_unsubscribed b then s1 else set_table s1 (remove_key (key_of b) (table s1)) in
-      release s2 h b
-  | _ => upd_sub s h (sb_sinks rest)
-  end.
+  let last := is_nil rest in
+  let r := last && s_has_permit b in
+  apply s h b
+    (fun x => rel_sub r (if last then sb_unsub true (sb_sinks [] x) else sb_sinks rest x))
+    (rel_conn r)
+    (if last && negb (s_unsubscribed b) then remove_key (key_of b) (table s) else table s).
 (* unrepaired tree: `impl Drop for SubscriptionSink` removes the entry when ANY clone is dropped while the
    subscription is active, which closes the liveness channel the remaining clones look at *)
 Definition drop_sink_old (s : st) (h : nat) (b : sub) (k : N) : st :=
   let rest := removeN k (s_sinks b) in
-  let s1 := upd_sub s h (fun b => sb_unsub true (sb_sinks rest b)) in
-  let s2 := if s_unsubscribed b then s1 else set_table s1 (remove_key (key_of b) (table s1)) in
-  match rest with [] => release s2 h b | _ => s2 end.
+  let last := is_nil rest in
+  let r := last && s_has_permit b in
+  apply s h b
+    (fun x => rel_sub r (sb_unsub true (sb_sinks rest x)))
+    (rel_conn r)
+    (if negb (s_unsubscribed b) then remove_key (key_of b) (table s) else table s).
 
 Definition close_frame (b : sub) (v : closeval) : option frame :=
   match v with
@@ -211,6 +221,9 @@ Definition close_frame (b : sub) (v : closeval) : option frame :=
   | CNotif x => Some (FNotif (s_meth b) (s_id b) x true)
   | CNotifErr x => Some (FNotifErr (s_meth b) (s_id b) x)
   end.
+
+(* the pending sink goes away without a successful accept: the handler future is finished or dropped *)
+Definition sb_fail (x : sstate) (r : bool) (b : sub) : sub := rel_sub r (sb_returned None (sb_state x b)).
 
 (* ---------- one step, before the graceful-stop bookkeeping ---------- *)
 Definition step_core (old : bool) (s : st) (a : act) : st * list obs :=
@@ -235,9 +248,9 @@ Definition step_core (old : bool) (s : st) (a : act) : st * list obs :=
           match s_state b with
           | SPending =>
               if conn_open s (s_conn b) then
-                (upd_sub (upd_conn s (s_conn b) (c_enq (FSubOk (s_req b) (s_id b)))) h (sb_state SAccepting), [OAck])
+                (apply s h b (sb_state SAccepting) (c_enq (FSubOk (s_req b) (s_id b))) (table s), [OAck])
               else    (* inner.send failed: Err(PendingSubscriptionAcceptError); the pending sink and its permit are gone *)
-                (release (upd_sub s h (fun b => sb_returned None (sb_state SDone b))) h b, [OAccept h false])
+                (apply s h b (sb_fail SDone (s_has_permit b)) (rel_conn (s_has_permit b)) (table s), [OAccept h false])
           | _ => (s, [])
           end
       | None => (s, [])
@@ -247,7 +260,7 @@ Definition step_core (old : bool) (s : st) (a : act) : st * list obs :=
       | Some b =>
           match s_state b with
           | SAccepting =>
-              (set_table (upd_sub s h (fun b => sb_sinks [0%N] (sb_state SActive b))) (key_of b :: table s), [OAccept h true])
+              (apply s h b (fun x => sb_sinks [0%N] (sb_state SActive x)) (fun cn => cn) (key_of b :: table s), [OAccept h true])
           | _ => (s, [])
           end
       | None => (s, [])
@@ -257,7 +270,8 @@ Definition step_core (old : bool) (s : st) (a : act) : st * list obs :=
       | Some b =>
           match s_state b with
           | SPending =>
-              (release (upd_sub (push s (s_conn b) (FErr (s_req b) (ERejected code))) h (fun b => sb_returned None (sb_state SRejected b))) h b, [OAck])
+              (apply s h b (sb_fail SRejected (s_has_permit b))
+                 (fun cn => rel_conn (s_has_permit b) (c_push (FErr (s_req b) (ERejected code)) cn)) (table s), [OAck])
           | _ => (s, [])
           end
       | None => (s, [])
@@ -265,7 +279,8 @@ Definition step_core (old : bool) (s : st) (a : act) : st * list obs :=
   | CloneSink h src k =>
       match nth_error (subs s) h with
       | Some b =>
-          if memN src (s_sinks b) && negb (memN k (s_sinks b)) then (upd_sub s h (sb_sinks (k :: s_sinks b)), [OAck])
+          if memN src (s_sinks b) && negb (memN k (s_sinks b))
+          then (apply s h b (sb_sinks (k :: s_sinks b)) (fun cn => cn) (table s), [OAck])
           else (s, [])
       | None => (s, [])
       end
@@ -283,7 +298,7 @@ Definition step_core (old : bool) (s : st) (a : act) : st * list obs :=
       | Some b =>
           if memN k (s_sinks b) && negb (memN k (map fst (s_inflight b))) then
             if sink_closed s b then (s, [OSendResult h k x false])
-            else (upd_sub s h (sb_inflight ((k, x) :: s_inflight b)), [OAck])
+            else (apply s h b (sb_inflight ((k, x) :: s_inflight b)) (fun cn => cn) (table s), [OAck])
           else (s, [])
       | None => (s, [])
       end
@@ -291,11 +306,9 @@ Definition step_core (old : bool) (s : st) (a : act) : st * list obs :=
       match nth_error (subs s) h with
       | Some b =>
           match inflight_of k (s_inflight b) with
-          | Some x =>
-              let s1 := upd_sub s h (sb_inflight (remove_inflight k (s_inflight b))) in
-              if conn_open s (s_conn b) then
-                (upd_conn s1 (s_conn b) (c_enq (FNotif (s_meth b) (s_id b) x false)), [OSendResult h k x true])
-              else (s1, [OSendResult h k x false])
+          | Some x =>     (* inner.send(json): Ok when the connection is still open *)
+              (apply s h b (sb_inflight (remove_inflight k (s_inflight b))) (c_push (FNotif (s_meth b) (s_id b) x false)) (table s),
+               [OSendResult h k x (conn_open s (s_conn b))])
           | None => (s, [])
           end
       | None => (s, [])
@@ -311,10 +324,11 @@ Definition step_core (old : bool) (s : st) (a : act) : st * list obs :=
           if s_returned b then (s, []) else
           match s_state b with
           | SPending =>   (* the pending sink is dropped unanswered: the call future answers -32603 *)
-              (release (upd_sub (push s (s_conn b) (FErr (s_req b) EInternal)) h (fun b => sb_returned None (sb_state SDone b))) h b, [OAck])
+              (apply s h b (sb_fail SDone (s_has_permit b))
+                 (fun cn => rel_conn (s_has_permit b) (c_push (FErr (s_req b) EInternal) cn)) (table s), [OAck])
           | SAccepting => (s, [])     (* the handler is inside accept().await *)
-          | SActive => (upd_sub s h (sb_returned (match v with CNone => None | _ => Some v end)), [OAck])
-          | _ => (upd_sub s h (sb_returned None), [OAck])    (* not accepted: the closing value is discarded *)
+          | SActive => (apply s h b (sb_returned (match v with CNone => None | _ => Some v end)) (fun cn => cn) (table s), [OAck])
+          | _ => (apply s h b (sb_returned None) (fun cn => cn) (table s), [OAck])    (* not accepted: the closing value is discarded *)
           end
       | None => (s, [])
       end
@@ -322,9 +336,7 @@ Definition step_core (old : bool) (s : st) (a : act) : st * list obs :=
       match nth_error (subs s) h with
       | Some b =>
           match s_ret b with
-          | Some v =>
-              let s1 := upd_sub s h (sb_ret None) in
-              (match close_frame b v with Some f => push s1 (s_conn b) f | None => s1 end, [OAck])
+          | Some v => (apply s h b (sb_ret None) (c_push_opt (close_frame b v)) (table s), [OAck])
           | None => (s, [])
           end
       | None => (s, [])
